@@ -18,15 +18,15 @@ VARIABLES l, cur
 vars == <<l, cur>>
 
 Answer(B, op, a) ==
-    CASE op = "get"   -> IF Get(B, a) THEN 1 ELSE 0
-      [] op = "rank"  -> Rank(B, a)
-      [] op = "rank0" -> RankZero(B, a)
-      [] op = "sel"   -> Select(B, a)
-      [] op = "sel0"  -> SelectZero(B, a)
-      [] op = "seli"  -> LET s == Select(B, a) IN IF s = None THEN NoPair ELSE <<a, s>>
-      [] op = "sel0i" -> LET s == SelectZero(B, a) IN IF s = None THEN NoPair ELSE <<a, s>>
-      [] op = "pred"  -> Pred(B, a)
-      [] op = "succ"  -> Succ(B, a)
+    CASE op = "get"   -> IF GetF(B, a) THEN 1 ELSE 0
+      [] op = "rank"  -> RankF(B, a)
+      [] op = "rank0" -> RankZeroF(B, a)
+      [] op = "sel"   -> SelectF(B, a)
+      [] op = "sel0"  -> SelectZeroF(B, a)
+      [] op = "seli"  -> LET s == SelectF(B, a) IN IF s = None THEN NoPair ELSE <<a, s>>
+      [] op = "sel0i" -> LET s == SelectZeroF(B, a) IN IF s = None THEN NoPair ELSE <<a, s>>
+      [] op = "pred"  -> PredF(B, a)
+      [] op = "succ"  -> SuccF(B, a)
 
 \* The domain in which the property defines an answer.
 InDomain(B, op, a) ==
@@ -34,15 +34,16 @@ InDomain(B, op, a) ==
       [] op = "rank0" -> a >= 0 /\ a <= B.len
       [] OTHER        -> TRUE
 
-TraceInit == l = 1 /\ cur = [len |-> 0, runs |-> << >>]
+TraceInit == l = 1 /\ cur = [len |-> 0, runs |-> << >>, cum |-> << >>]
 
 Build ==
     /\ l <= Len(Rec) /\ Rec[l].e = "def"
     /\ LET e == Rec[l]
-           B == [len |-> e.len, runs |-> e.runs]
+           B == [len |-> e.len, runs |-> e.runs, cum |-> e.cum]
        IN /\ WellFormed(B)
+          /\ CumOK(B)
           /\ e.built = "ok"
-          /\ e.obs = <<B.len, Ones(B), Zeros(B)>>
+          /\ e.obs = <<B.len, OnesF(B), ZerosF(B)>>
           /\ cur' = B
     /\ l' = l + 1
 
@@ -56,7 +57,8 @@ Query ==
 \* The run iterator of the run-length vector yields exactly the maximal runs with running counters.
 RunIter ==
     /\ l <= Len(Rec) /\ Rec[l].e = "runs"
-    /\ Rec[l].items = RunItems(cur)
+    /\ Len(Rec[l].items) = Len(cur.runs)
+    /\ \A k \in 1..Len(cur.runs) : Rec[l].items[k] = RunItemF(cur, k)
     /\ UNCHANGED cur
     /\ l' = l + 1
 
@@ -64,5 +66,5 @@ TraceNext == Build \/ Query \/ RunIter
 TraceSpec == TraceInit /\ [][TraceNext]_vars
 
 \* Layer A invariant evaluated in every state of the validated trace.
-ObjWellFormed == WellFormed(cur)
+ObjWellFormed == WellFormed(cur) /\ CumOK(cur)
 =============================================================================
